@@ -23,9 +23,6 @@ func FToBaseStr(num float64, radix int) string {
 	ldfloor := int64(dfloor)
 	var intDigits string
 	if dfloor == float64(ldfloor) {
-		if negative {
-			ldfloor = -ldfloor
-		}
 		intDigits = strconv.FormatInt(ldfloor, radix)
 	} else {
 		floorBits := math.Float64bits(num)
@@ -37,9 +34,6 @@ func FToBaseStr(num float64, radix int) string {
 			mantissa = int64((floorBits & frac_maskL) | exp_msk1L)
 		}
 
-		if negative {
-			mantissa = -mantissa
-		}
 		exp -= 1075
 		x := big.NewInt(mantissa)
 		if exp > 0 {
@@ -48,6 +42,10 @@ func FToBaseStr(num float64, radix int) string {
 			x.Rsh(x, uint(-exp))
 		}
 		intDigits = x.Text(radix)
+	}
+	if negative {
+		/* the sign belongs to the whole number, not to the integer part (which may be zero) */
+		intDigits = "-" + intDigits
 	}
 
 	if num == dfloor {
